@@ -16,6 +16,9 @@ PROPS = {
         "design_ref": "DESIGN.md §6 C46",
         "quick": {"runs": 20000, "seconds": 40},
         "thorough": {"runs": 1500000, "seconds": 420},
+        # a run takes milliseconds; one that makes no progress for a minute of real time, twice, is stuck
+        "hang_is_violation": True,
+        "env": {"VERIF_WATCHDOG_SECONDS": "60"},
         "rule": "one evaluation = one generated workload (capacity 1-5, max batch 1-4, 2-4 pushers with 1-3 pushes each of sizes around "
                 "the capacity, 1-2 poppers, relabel config none/drop/keep) under one seeded schedule; every Push/Pop/Len is recorded "
                 "with the scheduler step of its invocation and return; the history is checked for batch size, relabel drops, duplicates "
@@ -31,7 +34,9 @@ PROPS = {
         "text": "Schedules and workloads are sampled from the seed; each sampled history is decided exactly by a linearizability search "
                 "(a search exceeding 10 s would be counted as inconclusive, never as a violation).",
         "note": "Lost wake-up = at a quiescent point a sender is blocked on the signal channel, no other sender holds a taken signal, "
-                "and the queue is non-empty.",
+                "and the queue is non-empty. A run in which the queue's goroutines block each other for good (a goroutine blocked while "
+                "holding the queue's mutex: the bubble never becomes quiescent) is stopped by the real-time watchdog after 60 s, "
+                "re-executed alone, and reported as no-deadlock when it gets stuck again.",
     },
     "C16": {
         "world": "MW",
